@@ -305,7 +305,9 @@ def eval_case(c):
                 base["alpha"] = 0.5
             base.update({k: ([v, False] if k in ("standardize", "use_coslat") else v) for k, v in kw.items() if k != "center"})
             return getattr(xeofs.cross, c["model"])(**base).fit(D, Y if Yv is None else Yv, "time", weights_X=weights)
-        return xeofs.single.EOF(n_modes=3, solver="full", **kw).fit(D, "time", weights=weights)
+        base = dict(n_modes=3, solver="full")
+        base.update(kw)
+        return getattr(xeofs.single, c["model"] if c["model"] in ("ComplexEOF",) else "EOF")(**base).fit(D, "time", weights=weights)
     msgs = []
     tol = 1e-7
     rel = c["relation"]
@@ -319,6 +321,28 @@ def eval_case(c):
             ref = _summ(fit(da, standardize=std), cross)
             other = _summ(fit(da + field(rng.standard_normal(fshape) * 10.0 ** c["decades"]), standardize=std), cross)
             _same(ref, other, f"per-feature shift (standardize={std})", msgs, max(tol, 1e-15 * 10.0 ** (2 * c["decades"])))
+    elif rel == "complex-shift":
+        # genuinely complex samples, complex constant per feature; phases of complex modes are free, so moduli are compared
+        Z = da + 1j * real.da3(rng.standard_normal((nn, nlat * nlon)) * np.linspace(0.5, 2, nlat * nlon), nlat).assign_coords(da.coords)
+        shift = field(rng.standard_normal(fshape) * 10.0 ** c["decades"]) + 1j * field(rng.standard_normal(fshape) * 10.0 ** c["decades"])
+        (sva, ca, sa, fa), (svb, cb, sb, fb) = _summ(fit(Z), False), _summ(fit(Z + shift), False)
+        t = max(tol, 1e-15 * 10.0 ** (2 * c["decades"]))
+        if real.relerr(svb, sva) > t:
+            msgs.append(f"complex per-feature shift: singular values {svb} vs {sva}")
+        if real.relerr(fb, fa) > t * 10:
+            msgs.append("complex per-feature shift: variance fractions change")
+        if real.relerr(np.abs(cb.transpose(*ca.dims).values), np.abs(ca.values)) > t * 10:
+            msgs.append("complex per-feature shift: component moduli change")
+        if real.relerr(np.abs(sb.transpose(*sa.dims).values), np.abs(sa.values)) > t * 10:
+            msgs.append("complex per-feature shift: score moduli change")
+    elif rel == "factor-fraction":
+        # a fractional n_modes is a variance FRACTION: the number of modes kept does not depend on the units of the input
+        f = c["factor"]
+        for frac in (0.5, 0.9):
+            ka = fit(da, n_modes=frac).singular_values().size
+            kb = fit(da * f, n_modes=frac).singular_values().size
+            if ka != kb:
+                msgs.append(f"global factor {f}: n_modes={frac} keeps {kb} modes instead of {ka}")
     elif rel == "affine":
         ref = _summ(fit(da, standardize=True), cross)
         other = _summ(fit(da * field(mag) + field(rng.standard_normal(fshape)), standardize=True), cross)
@@ -408,6 +432,10 @@ def bounded_cases(tier, seed):
             cases.append(dict(model=model, relation="shift", decades=0, dtype=dt, keep=model == "EOF"))
             cases.append(dict(model=model, relation="weights", container="da", decades=0, dtype=dt, keep=model == "EOF" and dt == "int32"))
             cases.append(dict(model=model, relation="global-factor", factor=0.5, decades=0, dtype=dt))
+    for dec in (0, 2):
+        cases.append(dict(model="ComplexEOF", relation="complex-shift", decades=dec, keep=dec == 0))
+    for f in (1e-5, 1e-8, 1e7, -2.0):
+        cases.append(dict(model="EOF", relation="factor-fraction", factor=f, decades=0, keep=f in (1e-5, 1e-8)))
     for i, c in enumerate(cases):
         c["seed"] = int(seed) * 1000 + i
     if tier == "quick":
